@@ -155,7 +155,7 @@ def design_only(v, sc, binary, tier):
         shutil.rmtree(sub, ignore_errors=True)
 
 
-def v2_property(pid, tier, cfgs, cont, nontrivial, rule, level="model_checking", quick_limit=600, thorough_limit=40000, extra=None, free=False, v1kinds=(), v1models=None, simple=False, v2rand=False):
+def v2_property(pid, tier, cfgs, cont, nontrivial, rule, level="model_checking", quick_limit=600, thorough_limit=20000, extra=None, free=False, v1kinds=(), v1models=None, simple=False, v2rand=False):
     v = Verdict(pid, tier, level)
     rnd = random.Random(seed())
     import time as _t
